@@ -44,6 +44,13 @@ def match_cases3d(draw, tier="quick", ties=False, contest=False):
         }
     )
     _uuid_variants(draw, sc)
+    if sc["est"] and draw(st.integers(0, 3)) == 0:
+        # a second hypothesis at exactly the pose (and label) of another estimate, with another size / confidence / id: still a
+        # separate estimate that must appear in exactly one result
+        e = sc["est"][draw(st.integers(0, len(sc["est"]) - 1))]
+        f = draw(st.sampled_from([0.8, 1.25]))
+        sc["est"].append(dict(e, size=[e["size"][0] * f, e["size"][1] * f, e["size"][2]], score=max(0.001, e["score"] * 0.5 + 0.0003), uuid=(None if e.get("uuid") is None else f"e{len(sc['est'])}")))
+        sc["twin_estimate"] = True
     return sc
 
 
